@@ -127,7 +127,12 @@ impl Brick {
         let brick_2 = Brick {
             sequence: self.sequence.clone(),
             min: 0,
-            max: self.max - self.min,
+            // `u32::MAX` stands for an unbounded number of repetitions, which stays unbounded.
+            max: if self.max == u32::MAX {
+                u32::MAX
+            } else {
+                self.max - self.min
+            },
         };
 
         (brick_1, brick_2)
